@@ -1,6 +1,6 @@
 (* Type safety of FerretCore: a program accepted by check_prog never reaches Stuck (Wrong), for any fuel.
    The reference interpreter is therefore a total oracle on every program the generators emit. *)
-From Coq Require Import ZArith List Bool Lia.
+From Coq Require Import String ZArith List Bool Lia.
 From FV Require Import Core.Syntax Core.Typing Core.Sem Proofs.TypingP.
 Import ListNotations.
 
@@ -12,6 +12,7 @@ Definition vtype (v : value) (t : ty) : Prop :=
   | VInt a _, TInt b => a = b
   | VBool _, TBool => True
   | VUnit, TVoid => True
+  | VStr _, TStr => True
   | VStruct sid fs, TStruct sid' | VStruct sid fs, TMutRef sid' =>   (* a reference parameter holds a struct value *)
       sid = sid' /\ exists fts, nth_error structs sid = Some fts /\ length fs = length fts
   | _, _ => False
@@ -156,8 +157,9 @@ Hypothesis callf_ok : forall f pts rt args out, nth_error sigs f = Some (pts, rt
 Theorem eval_safe G : forall e t en out, check_expr structs sigs G e = TOk t -> env_ok G en ->
   fine (fun r => vtype (fst r) t /\ env_ok G (snd r)) (eval structs callf e en out).
 Proof.
-  fix IH 1. intros e t en out H He. destruct e as [t0 z|b|x|o a b|o a|a t0|f es|sid es|a k|f args].
+  fix IH 1. intros e t en out H He. destruct e as [t0 z|b|s|x|o a b|o a|a t0|f es|sid es|a k|f args].
   - cbn in H. destruct (in_range t0 z); inversion H; cbn; auto.
+  - inversion H; cbn; auto.
   - inversion H; cbn; auto.
   - cbn in H. destruct (tlookup x G) as [t1|] eqn:E; inversion H; subst.
     destruct (lookup_ok _ _ _ _ He E) as [v [Hl Hv]]. cbn. rewrite Hl. cbn. auto.
@@ -165,24 +167,31 @@ Proof.
     destruct o.
     1-11: (cbn; eapply fine_bind; [exact (IH a ta en out Ha He)|]; intros [va en1] out1 [Hva He1]; cbn [fst snd] in *;
            eapply fine_bind; [exact (IH b tb en1 out1 Hb He1)|]; intros [vb en2] out2 [Hvb He2]; cbn [fst snd] in *).
-    1-5: (destruct ta as [x| | |sx|rx], tb as [y| | |sy|ry]; try discriminate;
+    (* Add: integers or strings *)
+    1: (destruct ta as [x| | | |sx|rx], tb as [y| | | |sy|ry]; try discriminate;
+        [destruct (ity_eqb x y) eqn:Ex; [|discriminate]; apply ity_eqb_eq in Ex; subst y|]; inversion H; subst;
+        destruct va, vb; cbn in Hva, Hvb; try contradiction; subst; rewrite ?ity_eqb_refl; cbn; auto).
+    (* Sub Mul Div Mod *)
+    1-4: (destruct ta as [x| | | |sx|rx], tb as [y| | | |sy|ry]; try discriminate;
           destruct (ity_eqb x y) eqn:Ex; [|discriminate]; apply ity_eqb_eq in Ex; subst y; inversion H; subst;
           destruct va, vb; cbn in Hva, Hvb; try contradiction; subst; rewrite ity_eqb_refl; cbn;
           repeat match goal with |- context [if ?c then _ else _] => destruct c end; cbn; auto).
-    1-2: (destruct ta as [x| | |sx|rx], tb as [y| | |sy|ry]; try discriminate;
-          [destruct (ity_eqb x y) eqn:Ex; [|discriminate]; apply ity_eqb_eq in Ex; subst y|]; inversion H; subst;
+    (* Eq Ne: integers, booleans or strings *)
+    1-2: (destruct ta as [x| | | |sx|rx], tb as [y| | | |sy|ry]; try discriminate;
+          [destruct (ity_eqb x y) eqn:Ex; [|discriminate]; apply ity_eqb_eq in Ex; subst y| |]; inversion H; subst;
           destruct va, vb; cbn in Hva, Hvb; try contradiction; subst; rewrite ?ity_eqb_refl; cbn; auto).
-    1-4: (destruct ta as [x| | |sx|rx], tb as [y| | |sy|ry]; try discriminate;
+    (* Lt Le Gt Ge *)
+    1-4: (destruct ta as [x| | | |sx|rx], tb as [y| | | |sy|ry]; try discriminate;
           destruct (ity_eqb x y) eqn:Ex; [|discriminate]; apply ity_eqb_eq in Ex; subst y; inversion H; subst;
           destruct va, vb; cbn in Hva, Hvb; try contradiction; subst; rewrite ity_eqb_refl; cbn; auto).
     + (* And *) cbn. destruct ta, tb; try discriminate. inversion H; subst.
       eapply fine_bind; [exact (IH a _ en out Ha He)|]. intros [va en1] out1 [Hva He1]. cbn [fst snd] in *.
-      destruct va as [| [|] | |]; cbn in Hva; try contradiction; cbn; auto.
+      destruct va as [| [|] | | |]; cbn in Hva; try contradiction; cbn; auto.
       eapply fine_bind; [exact (IH b _ en1 out1 Hb He1)|]. intros [vb en2] out2 [Hvb He2]. cbn [fst snd] in *.
       destruct vb; cbn in Hvb; try contradiction; cbn; auto.
     + (* Or *) cbn. destruct ta, tb; try discriminate. inversion H; subst.
       eapply fine_bind; [exact (IH a _ en out Ha He)|]. intros [va en1] out1 [Hva He1]. cbn [fst snd] in *.
-      destruct va as [| [|] | |]; cbn in Hva; try contradiction; cbn; auto.
+      destruct va as [| [|] | | |]; cbn in Hva; try contradiction; cbn; auto.
       eapply fine_bind; [exact (IH b _ en1 out1 Hb He1)|]. intros [vb en2] out2 [Hvb He2]. cbn [fst snd] in *.
       destruct vb; cbn in Hvb; try contradiction; cbn; auto.
   - destruct o; cbn in H; apply tbind_ok in H as [ta [Ha H]]; destruct ta; try discriminate; inversion H; subst; cbn;
@@ -232,11 +241,11 @@ Proof.
         cbn. rewrite app_length. cbn. lia. }
     apply (Hgen es fts [] []); [assumption|reflexivity|reflexivity|assumption].
   - (* field *)
-    cbn in H. apply tbind_ok in H as [ta [Ha H]]. destruct ta as [| | |sid|]; try discriminate.
+    cbn in H. apply tbind_ok in H as [ta [Ha H]]. destruct ta as [| | | |sid|]; try discriminate.
     destruct (nth_error structs sid) as [fts|] eqn:En; [|discriminate].
     destruct (nth_error fts k) as [t0|] eqn:Ek; [|discriminate]. inversion H; subst. cbn.
     eapply fine_bind; [exact (IH a _ en out Ha He)|]. intros [va en1] out1 [Hva He1]. cbn [fst snd] in *.
-    destruct va as [| | |sid' fs]; cbn in Hva; try contradiction.
+    destruct va as [| | |sid' fs|]; cbn in Hva; try contradiction.
     destruct Hva as [-> [fts' [En' Hlen]]]. rewrite En in En'. inversion En'; subst fts'.
     rewrite En, Ek.
     destruct (nth_error fs k) as [z|] eqn:Ez; [cbn; auto|].
@@ -316,7 +325,7 @@ Proof.
     destruct t; try discriminate; destruct (ty_eqb te _); try discriminate; inversion H; subst; apply tdeclare_tl; assumption.
   - destruct (tlookup x G); [|discriminate]. apply tbind_ok in H as [te [_ H]].
     destruct (ty_eqb te t); inversion H; subst; auto.
-  - destruct (tlookup x G) as [[| | |sid|]|]; try discriminate.
+  - destruct (tlookup x G) as [[| | | |sid|]|]; try discriminate.
     destruct (nth_error structs sid) as [fts|]; [|discriminate]. destruct (nth_error fts k) as [t0|]; [|discriminate].
     apply tbind_ok in H as [te [_ H]]. destruct (ty_eqb te (TInt t0)); inversion H; subst; auto.
   - apply tbind_ok in H as [tc [_ H]]. destruct tc; try discriminate.
@@ -373,16 +382,16 @@ Proof.
     destruct (update_ok _ _ _ _ _ He1 El Hv) as [en' [Hu He']]. rewrite Hu. cbn.
     apply post_same; [exact I|assumption|assumption].
   - (* field assignment *)
-    destruct (tlookup x G) as [[| | |sid|]|] eqn:El; try discriminate.
+    destruct (tlookup x G) as [[| | | |sid|]|] eqn:El; try discriminate.
     destruct (nth_error structs sid) as [fts|] eqn:En; [|discriminate].
     match type of H with context [nth_error fts ?kk] => rename kk into kf end.
     destruct (nth_error fts kf) as [t0|] eqn:Ek; [|discriminate].
     apply tbind_ok in H as [te [Hte H]]. destruct (ty_eqb te (TInt t0)) eqn:E; [|discriminate].
     apply ty_eqb_eq in E. subst te. inversion H; subst. cbn.
     eapply fine_bind; [eapply eval_safe; eassumption|]. intros [v en1] out1 [Hv He1]. cbn [fst snd] in *.
-    destruct v as [tv z| | |]; cbn in Hv; try contradiction.
+    destruct v as [tv z| | | |]; cbn in Hv; try contradiction.
     destruct (lookup_ok _ _ _ _ He1 El) as [vs [Hl Hvs]]. rewrite Hl.
-    destruct vs as [| | |sid' fs]; cbn in Hvs; try contradiction.
+    destruct vs as [| | |sid' fs|]; cbn in Hvs; try contradiction.
     destruct Hvs as [-> [fts' [En' Hlen]]]. rewrite En in En'. inversion En'; subst fts'.
     assert (Hk : (kf < length fs)%nat) by (rewrite Hlen; apply nth_error_Some; congruence).
     destruct (set_nth_some kf z fs Hk) as [fs' [Hs Hl']]. rewrite Hs.
@@ -393,7 +402,7 @@ Proof.
   - (* if *) apply tbind_ok in H as [tc [Hc H]]. destruct tc; try discriminate.
     apply tbind_ok in H as [Ga [Ha H]]. apply tbind_ok in H as [Gb [Hb H]]. inversion H; subst. cbn.
     eapply fine_bind; [eapply eval_safe; eassumption|]. intros [vc en1] out1 [Hvc He1]. cbn [fst snd] in *.
-    destruct vc as [| [|] | |]; cbn in Hvc; try contradiction.
+    destruct vc as [| [|] | | |]; cbn in Hvc; try contradiction.
     + eapply fine_bind; [eapply (IHs1 ret inl ([] :: G') Ga ([] :: en1)); [eassumption|constructor; [constructor|assumption]|discriminate]|].
       intros [en2 fl2] out2 Hp. destruct (post_pop _ _ _ _ _ Hp Hne) as [Hen Hfl]. cbn. apply post_same; assumption.
     + eapply fine_bind; [eapply (IHs2 ret inl ([] :: G') Gb ([] :: en1)); [eassumption|constructor; [constructor|assumption]|discriminate]|].
@@ -404,7 +413,7 @@ Proof.
       assert (Hl : forall n e o, env_ok G' e -> fine P (L n e o)); [|apply Hl; assumption] end.
     clear en out He. induction n as [|n IHn]; intros en out He; [exact I|].
     eapply fine_bind; [eapply eval_safe; eassumption|]. intros [vc en1] out1 [Hvc He1]. cbn [fst snd] in *.
-    destruct vc as [| [|] | |]; cbn in Hvc; try contradiction.
+    destruct vc as [| [|] | | |]; cbn in Hvc; try contradiction.
     + eapply fine_bind; [eapply (IHs ret true ([] :: G') Ga ([] :: en1)); [eassumption|constructor; [constructor|assumption]|discriminate]|].
       intros r out2 Hp. destruct (post_pop _ _ _ _ _ Hp Hne) as [Hen Hfl]. destruct r as [en2 fl]. cbn [fst snd] in *.
       destruct fl; cbn.
@@ -420,7 +429,7 @@ Proof.
     eapply fine_bind; [eapply eval_safe; eassumption|]. intros [vlo en1] out1 [Hvlo He1]. cbn [fst snd] in *.
     eapply fine_bind; [eapply eval_safe; eassumption|]. intros [vhi en2] out2 [Hvhi He2]. cbn [fst snd] in *.
     eapply fine_bind; [eapply eval_safe; eassumption|]. intros [vst en3] out3 [Hvst He3]. cbn [fst snd] in *.
-    destruct vlo as [t1 l| | |], vhi as [t2 h| | |], vst as [t3 st| | |]; cbn in Hvlo, Hvhi, Hvst; try contradiction. subst t1 t2 t3.
+    destruct vlo as [t1 l| | | |], vhi as [t2 h| | | |], vst as [t3 st| | | |]; cbn in Hvlo, Hvhi, Hvst; try contradiction. subst t1 t2 t3.
     match goal with |- fine ?P (?L k l en3 out3) =>
       assert (Hl : forall n i e o, env_ok G' e -> fine P (L n i e o)); [|apply Hl; assumption] end.
     clear en out He out1 out2 out3 en1 He1 en2 He2 en3 He3. induction n as [|n IHn]; intros i en out He; [exact I|].
@@ -490,7 +499,7 @@ Proof.
     + pose proof (IHs1 _ _ _ _ Hr H1) as Hn. cbn in Hn. destruct fl1; [contradiction| | |]; inversion H2; subst; cbn; discriminate.
     + destruct fl1; [eapply IHs2; eassumption| | |]; inversion H2; subst; cbn; discriminate.
   - apply andb_prop in Hr as [Ha Hb].
-    apply bind_ok_inv in H as [[vc enc] [o1 [H1 H2]]]. cbn [fst snd] in H2. destruct vc as [| [|] | |]; try discriminate.
+    apply bind_ok_inv in H as [[vc enc] [o1 [H1 H2]]]. cbn [fst snd] in H2. destruct vc as [| [|] | | |]; try discriminate.
     + apply bind_ok_inv in H2 as [r1 [o2 [H3 H4]]]. inversion H4; subst. cbn. eapply IHs1; eassumption.
     + apply bind_ok_inv in H2 as [r1 [o2 [H3 H4]]]. inversion H4; subst. cbn. eapply IHs2; eassumption.
   - destruct e as [e|].
@@ -596,3 +605,11 @@ Proof. vm_compute. reflexivity. Qed.
 Example byref_sample_runs : run [[I32; U8]] byref_sample 5 = Done [[OInt 3%Z]].
 Proof. vm_compute. reflexivity. Qed.
 
+(* non-vacuity of the string fragment: main { print("ab" + "cd", "ab" + "cd" == "abcd"); } *)
+Definition str_sample : prog :=
+  [ {| fparams := []; fret := TVoid;
+       fbody := SPrint [EBin Add (EStr "ab") (EStr "cd"); EBin Eq (EBin Add (EStr "ab") (EStr "cd")) (EStr "abcd")] |} ].
+Example str_sample_accepted : check_prog [] str_sample = TOk tt.
+Proof. vm_compute. reflexivity. Qed.
+Example str_sample_runs : run [] str_sample 1 = Done [[OStr "abcd"; OBool true]].
+Proof. vm_compute. reflexivity. Qed.
